@@ -195,7 +195,8 @@ def work(spec):
         except Exception as ex:   # noqa
             p2 = ["replay failed: %s" % ex]
         return dict(out, status="violation", confirmed=bool(p2), why="; ".join(sorted(set(problems))[:3]) + " | concrete replay: " + "; ".join(sorted(set(p2))[:2]),
-                    sig={"engine": "E1", "family": "metrics", "what": sorted(set(problems))[0].split("(")[0][:50]},
+                    sig=dict({"engine": "E1", "family": "metrics", "what": sorted(set(problems))[0].split("(")[0][:50]},
+                             **({"nonloop_format": True} if (spec.get("tags") or {}).get("nonloop_format") else {})),
                     replay={"spec": spec, "text": text, "problems": sorted(set(problems))})
     kinds = {ev["kind"] for ev in rec.events}
     if "Metrics.beginCollect" not in kinds:
@@ -205,7 +206,7 @@ def work(spec):
 
 def run(tier, seed):
     t0 = time.time()
-    specs = specgen.f_metrics(tier, seed)
+    specs = specgen.f_metrics(tier, seed) + specgen.f_metrics_nonloop_format()
     res = runner.pmap(work, specs)
     ok = [r for r in res if r["status"] == "ok"]
     cov = {
